@@ -15,6 +15,8 @@ func main() {
 		vlib.Group{Name: "ug", Gen: genUg},
 		vlib.Group{Name: "unweighted", Gen: genUnweighted},
 		vlib.Group{Name: "traverse", Gen: genTraverse},
+		vlib.Group{Name: "ties", Gen: genTies},
+		vlib.Group{Name: "views", Gen: genViews},
 		vlib.Group{Name: "empty-tree", Gen: genEmptyTree},
 		vlib.Group{Name: "bf-negcycle", Gen: genBFNeg},
 		vlib.Group{Name: "fw-negcycle", Gen: genFWNeg},
